@@ -42,15 +42,18 @@ open OxiVerif.Spec
 
 /- FULL (T1): for every tree `v` whose reals are decimal tokens, every `rest` that ends a token,
    and enough fuel,
-     `ObjParser.parseObj fuel (ser v ++ rest) = .ok (readBack (sortDicts v), rest)`.
+     `ObjParser.parseObj fuel (ser v ++ rest) = .ok (readBackLib (sortDicts v), rest)`
+   (`readBackLib` = `readBack`, except that a real written as an integer token outside `i64` comes
+   back as a real carrying that token — the same number; `C09_readBackLib_eq`, `C09_lib_big_real`).
    False: see `C09_witness_lib_*`. -/
 
 /-- T1 on the safe fragment: ASCII names (any ASCII byte: white space, delimiters, `#`, controls
-    included), no `i g /R` look-alike after an integer, integer tokens inside `i64`, references
+    included), no `i g /R` look-alike after an integer, integers inside `i64` (the type of
+    `Object::Integer`; reals of any magnitude), references
     with object number ≤ `u32::MAX` (the type of `ObjectId`) and generation ≤ `u16::MAX`. -/
 theorem C09_lib_roundtrip_partial (v : Obj) (rest : List Nat) (fuel : Nat)
     (hs : SafeLib (sortDicts v) rest = true) (hf : needFT (sortDicts v) + 1 ≤ fuel) :
-    ObjParser.parseObj fuel (ser v ++ rest) = .ok (readBack (sortDicts v), rest) :=
+    ObjParser.parseObj fuel (ser v ++ rest) = .ok (readBackLib (sortDicts v), rest) :=
   lib_parseObj_roundtrip (sortDicts v) rest fuel hs hf
 
 /-- non-vacuity: a nested tree with a real, a string full of delimiters and a CR, a reference,
@@ -149,11 +152,41 @@ theorem C09_witness_lib_ref_lookalike_ne :
   rw [C09_witness_lib_ref_lookalike]
   simp [readBack, readBackList, sortDicts, sortDictsList]
 
-/-- counter-witness: `Real(1e19)` is written as the integer token `10000000000000000000`, which
-    the library's lexer rejects (`i64` overflow) -/
+/-- `readBackLib` is `readBack` on every tree without a real of magnitude ≥ 2^63 written as an
+    integer token -/
+theorem C09_readBackLib_eq (v : Obj) (h : hasBigReal v = false) : readBackLib v = readBack v :=
+  readBackLib_eq v h
+
+example : hasBigReal (.arr [.real [50, 46, 53, 48, 48, 48, 48, 48], .int 3, .dict [([65], .real [53, 46, 48])]]) = false := by
+  rfl
+
+/-- a real written as an integer token outside `i64` (|f| ≥ 2^63) is read back as a real carrying
+    exactly that token — the same number (`Syntax.intVal` of the token is what the independent
+    reader returns) -/
+theorem C09_lib_big_real (t rest : List Nat) (fuel : Nat) (hdec : IsDecTok (trimReal t) = true)
+    (hr : libEnds rest = true) (hint : Syntax.isIntTok (trimReal t) = true)
+    (hbig : inI64 (Syntax.intVal (trimReal t)) = false) :
+    ObjParser.parseObj (fuel + 2) (ser (.real t) ++ rest) = .ok (.real (trimReal t), rest) := by
+  have hw : (0 ≤ Syntax.intVal (trimReal t) && Syntax.intVal (trimReal t) ≤ 4294967295) = false := by
+    simp [inI64] at hbig ⊢; omega
+  have := lib_parseObj_roundtrip (.real t) rest (fuel + 2)
+    (by simp [SafeLib, hdec, hr, hint, hw]) (by simp [needFT])
+  simpa [readBackLib, readBackRealLib, hint, hbig, ser, sortDicts] using this
+
+def fix1e19 : List Nat :=
+  [49, 48, 48, 48, 48, 48, 48, 48, 48, 48, 48, 48, 48, 48, 48, 48, 48, 48, 48, 48, 46, 48, 48, 48, 48, 48, 48]
+
+example : IsDecTok (trimReal fix1e19) = true ∧ libEnds [10] = true ∧
+    Syntax.isIntTok (trimReal fix1e19) = true ∧ inI64 (Syntax.intVal (trimReal fix1e19)) = false := by
+  refine ⟨by rfl, by rfl, by rfl, by rfl⟩
+
+/-- regression witness (C09-F4): `Real(1e19)` is written as the integer token
+    `10000000000000000000`; `read_number` before the repair rejected it (`i64` overflow, "Invalid
+    integer"), the present one reads the real -/
 theorem C09_witness_lib_big_real :
-    ObjParser.parse (ser (.real [49, 48, 48, 48, 48, 48, 48, 48, 48, 48, 48, 48, 48, 48, 48, 48, 48, 48, 48, 48,
-      46, 48, 48, 48, 48, 48, 48]) ++ [10, 62, 62]) = .error .syntax := by rfl
+    Lexer.readNumberOld (ser (.real fix1e19) ++ [10, 62, 62]) = .error .syntax ∧
+    ObjParser.parse (ser (.real fix1e19) ++ [10, 62, 62]) = .ok (.real (trimReal fix1e19), [10, 62, 62]) := by
+  constructor <;> rfl
 
 /-- the former witness reads back: the look-ahead window now covers every `u32` object number -/
 example : ObjParser.parse (ser (.ref 10000000 0) ++ [10]) = .ok (.ref 10000000 0, [10]) := by rfl
